@@ -181,6 +181,9 @@ def c01_custom(pid, tier, plan, scr, hbin, specdir):
     nh, steps, cap = (2, 60, 30) if tier == "quick" else (12, 160, 400)
     rec = vlib.record_random(hbin, "mix", sd, steps, nh, scr)
     lines = [json.loads(l) for l in open(rec)]
+    # registry-heavy histories with transactions that buy storage for several registrations at once
+    rec2 = vlib.record_random(hbin, "bulk", sd, steps * 2, nh, scr)
+    lines += [json.loads(l) for l in open(rec2)]
     hists, cur = [], []
     for r in lines:
         if r["a"] == "InitChain" and cur:
